@@ -21,7 +21,7 @@ def mc_parser(ck, name, alphabet, maxlen, dump=True):
     cases = os.path.join(work, "cases.json")
     cfg = write_cfg("gen/MC_HyParser_%s_%s.cfg" % (ck.pid, name),
                     "SPECIFICATION Spec\nCONSTANTS\n  Alphabet = {%s}\n  MaxLen = %d\n  DumpOn = %s\n"
-                    "INVARIANT ParserIsGrammar\nINVARIANT Reparse\nINVARIANT ListingDetermines\nINVARIANT Dump\nCHECK_DEADLOCK FALSE\n"
+                    "INVARIANT ParserIsGrammar\nINVARIANT FoldIsRecursion\nINVARIANT Reparse\nINVARIANT ListingDetermines\nINVARIANT Dump\nCHECK_DEADLOCK FALSE\n"
                     % (", ".join(map(str, alphabet)), maxlen, "TRUE" if dump else "FALSE"))
     n = [0]
     with open(cases, "w") as f:
